@@ -206,19 +206,19 @@ static double convert(
 
     int32_t exponent2 = 0;
 
-    /* Approximate exponent in base 2 of mant and exponent. This should get us a good estimate of the final size of the
-     * number, within * 2^32 or so. */
-    int64_t mant_exp2_approx = mant->n * 32 + 16;
+    /* Bound the exponent in base 2 of the final number. A non-zero mantissa of n digits lies in
+     * [2^(31 n), 2^(31 (n + 1))), and base^exponent lies in [2^e, 2^(e + 1)) for e = floor(log2(base) * exponent). */
     int64_t exp_exp2_approx = (int64_t)(floor(log2(base) * exponent));
-    int64_t exp2_approx = mant_exp2_approx + exp_exp2_approx;
+    int64_t exp2_low = (int64_t) mant->n * BIGNAT_NBIT + exp_exp2_approx;
+    int64_t exp2_high = ((int64_t) mant->n + 1) * BIGNAT_NBIT + exp_exp2_approx + 1;
 
     /* Short circuit zero, huge, and small numbers. We use the exponent range of valid IEEE754 doubles (-1022, 1023)
      * with a healthy buffer to allow for inaccuracies in the approximation and denormailzed numbers. */
     if (mant->n == 0 && mant->first_digit == 0)
         return negative ? -0.0 : 0.0;
-    if (exp2_approx > 1176)
+    if (exp2_low > 1176)
         return negative ? -INFINITY : INFINITY;
-    if (exp2_approx < -1175)
+    if (exp2_high < -1175)
         return negative ? -0.0 : 0.0;
 
     /* Final value is X = mant * base ^ exponent * 2 ^ exponent2
